@@ -62,6 +62,7 @@ def text(parts, exhaustive=True):
 CLI_RULE = {
     'grid': 'option grid on 40 fixed formulas (every construct): all 15 accepted spellings of -f, the three input channels (stdin, file, --evaluate), -c {t,f,True,false} x -m, -m alone and with -f t, -b {1,2,3}; every run asks for -t -v -r together; header, row set, -v lines and -r list are compared',
     'order': '12 formulas over <=3 names x all 65 sequences of distinct names from {a,b,c,u} (permutations, subsets, supersets with the unused name u before/between/after) as ordering file, plus files with duplicates, punctuation, keywords, numbers, comments, empty; every run also feeds its own -r output back with -o and requires the identical table (round trip)',
+    'size': 'size boundaries: conjunction / disjunction tables with 63, 64, 65, 66, 70 and 130 columns x filters x -m; evaluations that build more than a thousand table entries (pairs (a_i & b_i) under an order that separates the a from the b) and end in a constant or a small diagram, with -b absent, 1, 2, 3',
     'random': 'seeded random formulas (monotone-by-construction fixed points, <=6 names) x random option sets (-f, -c, -m, -b, channel) x random ordering files (unused names, duplicates, separators), half of those with round trip',
     'robustbin': 'the binary on seeded arbitrary bytes as formula and as ordering file (raw bytes incl. invalid UTF-8, token soups with huge / non-ASCII numerals, NUL, stray quotes and braces, mutated formulas, nesting up to 200, long chains) x option sets; exit class and absence of a panic message',
     'robustlib': 'in-process tokenize/new/eval plus both DOT renderers under all filters, retain, model and to_free_index on every node of answer and model, under catch_unwind, on seeded arbitrary bytes (same generator); Ok/Err class compared with the model',
@@ -91,12 +92,12 @@ def gen(parts):
 
 PROPS = {
     'C02': dict(suites=[bdd(['conn', 'quant', 'count', 'fp', 'model', 'retain', 'clean', 'mixed'])]),
-    'C01': dict(suites=[text(['tok', 'parse', 'eval'])]),
+    'C01': dict(suites=[text(['tok', 'parse', 'eval', 'evalfp'])]),
     'C08': dict(suites=[text(['tok', 'parse'])]),
     'C09': dict(suites=[text(['eval'])]),
-    'C10': dict(suites=[cli(['grid', 'order', 'random'])]),
+    'C10': dict(suites=[cli(['grid', 'order', 'size', 'random'])]),
     'C11': dict(suites=[cli(['order', 'random']), text(['evalord'])]),
-    'C12': dict(suites=[cli(['robustlib', 'robustbin', 'grid'])]),
+    'C12': dict(suites=[cli(['robustlib', 'robustbin', 'grid', 'size'])]),
     'C19': dict(suites=[dict(suite='set', parts=[], profile='release', exhaustive=True,
                              rule='complete BFS over all 256 reachable pairs of reference states of two 2-bit sets sharing an environment x all 32 next operations (insert, contains per element; union, intersect, complement for all four operand pairs incl. the same set twice; empty; universe), each followed by all 8 membership queries twice; plus seeded random histories of <=25 operations over 1..5 bits ending in a full membership sweep; answers and both final diagrams are compared')]),
     'C13': dict(lint='c13', suites=[dict(suite='hist', parts=[], profile='release', exhaustive=True,
